@@ -140,7 +140,9 @@ PanicElsewhere ==
       \/ (E.op.op = "build" /\ ~On("C10"))
    /\ UNCHANGED <<dict, opts, ws, cnt, memo>>
 
-Next == PanicStuck \/ PanicElsewhere \/ Session \/ Reset \/ Tok \/ Read \/ CInit \/ CUpd \/ Probs \/ Respace \/ OptErr
+Summary == Is("stress_summary") /\ UNCHANGED <<dict, opts, ws, cnt, memo>>
+
+Next == Summary \/ PanicStuck \/ PanicElsewhere \/ Session \/ Reset \/ Tok \/ Read \/ CInit \/ CUpd \/ Probs \/ Respace \/ OptErr
 Spec == Init /\ [][Next]_vars
 
 Accepted ==
